@@ -25,7 +25,11 @@ def run_format(ctx: Ctx, rt: RT, prop, fmt, expected_tags):
               for pattern in (BRANCH_PATTERNS if kind == "point" and (ctx.tier == "thorough" or (config, target) == ("abs-molar-K", targets[0])) else ("two",)):
                 rt.branch_pattern = pattern
                 for mp in ((True, False) if (kind, config, target) == ("base", "abs-molar-K", targets[0]) else (True,)):
-                    res = rt.roundtrip(w, r, kind, config, target, path_ext=ext, material_props=mp)
+                    # JSON carries every JSON-representable value: lists, nested dictionaries, None, text that looks like a number
+                    rich = {"user": Tok("t_user"), "count": Num.atom("n_count"), "flag": True, "off": False, "zero": Num.const(0),
+                            "iso_type": Tok("t_isotype"), "lst": [Tok("t_l0"), Num.atom("n_l1"), True], "nested": {"a": Num.atom("n_a"), "b": [Tok("t_b")]},
+                            "nothing": None, "numtext": "12", "booltext": "True"} if fmt == "json" else None
+                    res = rt.roundtrip(w, r, kind, config, target, path_ext=ext, material_props=mp, props=rich)
                     rt.branch_pattern = "two"
                     for oc, cons, orig, iso, doc in res:
                         n += 1
@@ -334,9 +338,9 @@ def r_model_state(ctx: Ctx, rt: RT, prop):
             def thunk(I, ci=ci):
                 called.clear()
                 mobj = Obj(cls=ci, label="model", attrs={"params": {}, "name": ci.name})
-                new = Obj(cls=mi, label="new", attrs={})
-                I.call_func(init, [], {"model": mobj, "branch": "ads", "temperature": Num.atom("Tst"), "material": Tok("m"), "adsorbate": Tok("a")},
-                            None, self_obj=new)
+                new = Obj(cls=mi, label="new", attrs={"_temperature": Num.atom("Tst"), "temperature_unit": "K"})
+                I.call_func(init, [], {"model": mobj, "branch": "ads", "temperature": Num.atom("Tst"), "temperature_unit": "K",
+                                       "material": Tok("m"), "adsorbate": Tok("a")}, None, self_obj=new)
                 return new
             for oc, _ in rt.explore(thunk):
                 if oc.kind != "ok":
